@@ -155,6 +155,12 @@ def slice(ctx: fw.Ctx) -> fw.Outcome:
             evaluate(c, be, real, nts, R, i, d, form, args, sb, eb, src=src)
             if form in ("tick", "ticks"):
                 tick_calls.append((i, d, form, args, sb, eb))
+        # always: windows whose bounds sit one microsecond inside / outside note times (closed bounds are exact, not "about")
+        if real is not None and len(set(nts)) >= 2:
+            u = sorted(set(nts))
+            for ta, tb in ((u[0] + US, u[-1] - US), (u[0] + US, u[1] - US), (u[-1] + US, u[-1] + 5 * US), (u[0], u[0]), (max(u[0] - US, timedelta(0)), u[0])):
+                if tb >= ta:
+                    evaluate(c, be, real, nts, R, i, d, "times", (ta, tb), f"u{ta // US}", f"u{tb // US}", src=src)
         # the same tick bounds on a twin chart (same notes, every tempo doubled) in the same process: an answer remembered
         # from the first chart would be wrong here
         if tick_calls:
